@@ -356,9 +356,9 @@ def parseProgram (src : List Byte) (fuel : Nat) : Except PErr Program :=
   | .err e :: _ => .error (lexDiag e)
   | [] => .error .fuel                       -- unreachable: `lexAll` is never empty (`lexAll_ne_nil`)
 
-/-- The recursion bound the driver and the theorems use: every recursive call follows the
-    consumption of a token or descends one of a fixed number of grammar levels. -/
-def fuelFor (src : List Byte) : Nat := 5 * src.length + 16
+/-- The recursion bound the driver and the theorems use: 8 units per lexical item plus 8
+    (`Lemmas/XcmpFuel.lean` proves that it always suffices: `parseProgram_no_fuel`). -/
+def fuelFor (src : List Byte) : Nat := 8 * (lexAll src).length + 8
 
 def parse (src : List Byte) : Except PErr Program := parseProgram src (fuelFor src)
 
